@@ -4,7 +4,7 @@ import os, sys, json, random, re, collections
 from vlib import runner, tlc
 import concurrent.futures as cf
 
-CONTAIN_KINDS = ["ok", "ok", "ok", "hugearg", "raise", "sysexit", "kbint", "unpicklable_arg", "too_large", "unpicklable_result", "big", "unpicklable_exc", "oserror_arg"]
+CONTAIN_KINDS = ["ok", "ok", "ok", "hugearg", "wrapped", "raise", "sysexit", "kbint", "unpicklable_arg", "too_large", "unpicklable_result", "big", "unpicklable_exc", "oserror_arg"]
 WORKER_LABELS = ["cq.rlock.acq", "cq.r.poll", "cq.r.recv", "cq.sem.rel", "cq.rlock.rel", "rq.wlock.acq", "rq.w.send",
                  "rq.w.send2", "rq.wlock.rel", "mgmt.try", "mgmt.rel", "init", "start"]
 
@@ -25,6 +25,8 @@ def normalise(tr, scn):
                   "broken", "shutdown", "late", "nbefore", "kept", "oldalive", "reason"):
             if k in e and e[k] is not None:
                 d[k] = e[k]
+        if ev == "call_exc":
+            d["kind"] = e.get("call", "")
         if "code" in e:
             d["code"] = e["code"] if isinstance(e["code"], int) and e["code"] >= 0 else 255
         if ev in ("resolve", "submit_rejected"):
@@ -238,6 +240,35 @@ def fam_resize_crash(rng):
                 fam="resize_crash", single=True)
 
 
+def fam_reuse_kill(rng):
+    """the reusable executor is stuck on never-ending tasks, is (or is not) already flagged as shut down without waiting, and
+    is then replaced with kill_workers=True: the call must return a fresh working executor at once"""
+    n0 = rng.choice([1, 2, 2])
+    u1 = [["submit", i + 1, "long"] for i in range(rng.randint(1, n0 + 1))]
+    r = rng.random()
+    if r < 0.5:
+        u1 += [["shutdown", False, False]]
+    elif r < 0.65:
+        u1 += [["shutdown", False, True]]
+    kw = {"kill_workers": True}
+    if r >= 0.65:
+        kw["timeout"] = 7          # other arguments than the running instance: it has to be replaced (with the same arguments a
+                                   # live instance is reused and legitimately waits for its never-ending tasks)
+    u1 += [["reuse", rng.choice([1, 2, 3]), kw], ["submit", 40, "ok"], ["wait", 40], ["shutdown", True, False]]
+    return dict(exec=dict(kind="reusable", max_workers=n0, timeout=None), users={"u1": u1}, fam="reuse_kill")
+
+
+def fam_resize_shrink_big(rng):
+    """a shrink that dismisses more workers than the call queue has slots (1-CPU machine: 3 slots)"""
+    n0 = rng.choice([5, 6])
+    n1 = rng.choice([1, 1, 2])
+    u1 = [["submit", 1, "ok"], ["submit", 2, "ok"], ["wait_all"], ["settle"], ["reuse", n1, {}], ["submit", 3, "ok"], ["wait_all"]]
+    if rng.random() < 0.5:
+        u1 += [["reuse", n1, {}], ["submit", 4, "ok"], ["wait_all"]]
+    u1 += [["shutdown", True, False]]
+    return dict(exec=dict(kind="reusable", max_workers=n0, timeout=None, cpus=1), users={"u1": u1}, fam="resize_shrink_big")
+
+
 def fam_resize_partial(rng):
     """some (not all) workers leave by idle timeout, then the pool is asked for exactly the number that is left, then more
     long tasks than that are submitted: no more than the requested number may run at once"""
@@ -404,7 +435,7 @@ def fam_reusable(rng):
     return dict(exec=dict(kind="reusable", max_workers=m0, timeout=tmo), users=users, fam="reusable")
 
 
-FAMILIES = dict(stalled_manager=fam_stalled_manager, memleak=fam_memleak, resize_crash=fam_resize_crash, resize_saturation=fam_resize_saturation, trace=fam_trace, crash_shutdown=fam_crash_shutdown, callback=fam_callback, resize_partial=fam_resize_partial, resize_wait=fam_resize_wait, map=fam_map, reusable=fam_reusable, respawn_crash=fam_respawn_crash, mixed=fam_mixed, crash=fam_crash, kill=fam_kill, timeout=fam_timeout, saturation=fam_saturation, init=fam_init)
+FAMILIES = dict(reuse_kill=fam_reuse_kill, resize_shrink_big=fam_resize_shrink_big, stalled_manager=fam_stalled_manager, memleak=fam_memleak, resize_crash=fam_resize_crash, resize_saturation=fam_resize_saturation, trace=fam_trace, crash_shutdown=fam_crash_shutdown, callback=fam_callback, resize_partial=fam_resize_partial, resize_wait=fam_resize_wait, map=fam_map, reusable=fam_reusable, respawn_crash=fam_respawn_crash, mixed=fam_mixed, crash=fam_crash, kill=fam_kill, timeout=fam_timeout, saturation=fam_saturation, init=fam_init)
 
 
 def policies(rng, fam):
